@@ -173,6 +173,20 @@ Theorem C11_relocatable_observable :
 Proof. exact stage_relocatable_obs. Qed.
 Print Assumptions C11_relocatable_observable.
 
+(** MODELLING NOTE, --hashws: the model has [hash_ws] off.  With it on, the
+    second workspace component (and the nickname / script file name) of a
+    parameterised instance is [h combo] with [h = md5] applied to the
+    combination string -- which never sees the root -- so for an ABSTRACT digest
+    [h] the hashed workspace is again "the same components under another root".
+    The implementation side of this is checked across processes by the harness
+    (cases staged with hash_ws=True / use_tmp=True under different roots). *)
+Theorem C11_hashed_workspace_relocatable :
+  forall (san h : str -> str) (r r' x combo : str),
+    exists comps, hashed_ws san h r x combo = base r comps
+               /\ hashed_ws san h r' x combo = base r' comps.
+Proof. exact hashed_ws_relocatable. Qed.
+Print Assumptions C11_hashed_workspace_relocatable.
+
 (** submission order, status listing and the names of the scripts written *)
 Theorem C11_relocatable_listing :
   forall ap san (pi : an_oracle) (sp : spec) (r' : str),
